@@ -1,2 +1,70 @@
-(* Props/C04.v — the property theorems of C04 and nothing else. *)
+(* Props/C04.v — the property theorems of C04 and nothing else.
+   C04: a transaction's outcome is a function of configuration and request only. *)
 From Verif Require Import Base Transform Determinism DeterminismProofs.
+From Coq Require Import Permutation.
+
+(* the outcome is a function of (configuration, request, order oracle): nothing else - no
+   repetition count, no history of the WAF - enters the evaluation *)
+Theorem C04_deterministic_given_order : forall cfg cfg' rq rq' (ord ord' : ord_t),
+  cfg = cfg' -> rq = rq' -> (forall n l, ord n l = ord' n l) ->
+  run cfg rq ord = run cfg' rq' ord'.
+Proof. exact deterministic_given_order. Qed.
+Print Assumptions C04_deterministic_given_order.
+
+(* for an order-insensitive configuration the observable outcome (interruption, fired rules in
+   order, per rule the multiset of matched (variable, key, value), TX counters, highest
+   severity) is the same under ANY two permutation oracles, a fresh permutation at every map
+   iteration, for every request *)
+Theorem C04_order_independent_partial : forall cfg rq (ord1 ord2 : ord_t),
+  order_insensitive cfg = true ->
+  (forall n l, Permutation (ord1 n l) l) -> (forall n l, Permutation (ord2 n l) l) ->
+  obs_equiv (observe (run cfg rq ord1)) (observe (run cfg rq ord2)).
+Proof. intros cfg rq ord1 ord2 H H1 H2. exact (order_independent ord1 ord2 rq H1 H2 cfg H). Qed.
+Print Assumptions C04_order_independent_partial.
+
+(* the guard is not vacuous: an anomaly-scoring configuration (per-match increments by a TX
+   constant, chain with MATCHED_VAR read after a single-valued link, count target, threshold
+   deny, logging-phase rule, capture) satisfies it *)
+Theorem C04_guard_nonvacuous : order_insensitive cfg_anomaly = true.
+Proof. exact anomaly_scoring_is_order_insensitive. Qed.
+Print Assumptions C04_guard_nonvacuous.
+
+(* without the guard the statement is false (known finding F26, key c04-matched-var-hash-order):
+   SecRule ARGS "@rx ." "chain" + SecRule MATCHED_VAR "@streq x" on ?a=x&b=y fires or not
+   depending on the oracle *)
+Theorem C04_order_dependent_refuted :
+  exists cfg rq ord1 ord2, (forall n l, Permutation (ord1 n l) l) /\ (forall n l, Permutation (ord2 n l) l) /\
+    ~ obs_equiv (observe (run cfg rq ord1)) (observe (run cfg rq ord2)).
+Proof. exact order_dependent_refuted. Qed.
+Print Assumptions C04_order_dependent_refuted.
+
+(* ... a counter copied from MATCHED_VAR in a multi-valued rule differs *)
+Theorem C04_order_dependent_counter_refuted :
+  exists cfg rq ord1 ord2, (forall n l, Permutation (ord1 n l) l) /\ (forall n l, Permutation (ord2 n l) l) /\
+    o_tx (observe (run cfg rq ord1)) <> o_tx (observe (run cfg rq ord2)).
+Proof. exact order_dependent_counter_refuted. Qed.
+Print Assumptions C04_order_dependent_counter_refuted.
+
+(* ... and the interruption itself differs when a later rule reads TX.0 captured by a multi-valued rule *)
+Theorem C04_order_dependent_interruption_refuted :
+  exists cfg rq ord1 ord2, (forall n l, Permutation (ord1 n l) l) /\ (forall n l, Permutation (ord2 n l) l) /\
+    o_intr (observe (run cfg rq ord1)) <> o_intr (observe (run cfg rq ord2)).
+Proof. exact order_dependent_interruption_refuted. Qed.
+Print Assumptions C04_order_dependent_interruption_refuted.
+
+(* the key lemma in its general form: a fold of steps that pairwise commute up to an equivalence
+   the steps respect gives equivalent results on any two permutations of the list *)
+Theorem C04_fold_of_commuting_steps_is_order_independent :
+  forall (S A : Type) (R : S -> S -> Prop) (step : S -> A -> S),
+  (forall s, R s s) -> (forall a b c, R a b -> R b c -> R a c) ->
+  (forall s s' a, R s s' -> R (step s a) (step s' a)) ->
+  (forall s a b, R (step (step s a) b) (step (step s b) a)) ->
+  forall l l', Permutation l l' -> forall s s', R s s' -> R (fold_left step l s) (fold_left step l' s').
+Proof. exact fold_perm_equiv. Qed.
+Print Assumptions C04_fold_of_commuting_steps_is_order_independent.
+
+(* the oracles the correspondence run evaluates the model with are permutation oracles *)
+Theorem C04_correspondence_oracles_are_permutations :
+  perm_oracle ord_id /\ perm_oracle ord_rev /\ forall m, perm_oracle (ord_mask m).
+Proof. exact (conj ord_id_perm (conj ord_rev_perm ord_mask_perm)). Qed.
+Print Assumptions C04_correspondence_oracles_are_permutations.
